@@ -425,6 +425,17 @@ func ruleCIDTaint(c *Ctx) {
 								}
 							}
 						}
+					case *ssa.Call:
+						// made by a helper of the handling function: what the helper returns
+						if sf := x.Call.StaticCallee(); sf != nil && p.isRepoFn(sf) && len(sf.Blocks) > 0 {
+							for _, in := range instrsOf(sf) {
+								if r, isR := in.(*ssa.Return); isR && len(r.Results) == 1 {
+									origins(r.Results[0], d+1)
+								}
+							}
+						} else {
+							bad = "the set handed to the connections is not a map made by the handling function"
+						}
 					default:
 						bad = "the set handed to the connections is not a map made by the handling function"
 					}
